@@ -41,23 +41,23 @@ CHECKS = {
                 note="The planner (ref/layout_rules.h) is written from the property text; frames without messages are C07's business.",
                 technique="bounded exhaustive enumeration of encoder executions compared with an executable reference model of the layout rules"),
     "C09": dict(level="model_checking", design="4/C09",
-                text="All histories up to depth 4 (quick) / 5 (thorough) over an 11-operation alphabet explored as a tree of copied real Encoder objects, every prefix judged against a counter/identity model; plus dedicated histories that wrap the 16-bit counter inside and across calls.",
-                note="Alphabet: 2 device ids, 2 stream ids, restart, 6 (batch,context) pairs chosen to differ in every piece of carried encoder state.",
+                text="All histories up to depth 5 (quick) / 7 (thorough) over a 13-operation alphabet explored as a tree of copied real Encoder objects, every prefix judged against a counter/identity model; plus dedicated histories that wrap the 16-bit counter inside and across calls.",
+                note="Alphabet: 2 device ids, 2 stream ids, restart, 8 (batch,context,version) triples chosen to differ in every piece of carried encoder state, two of them from another one in the version only.",
                 technique="explicit-state exploration of all operation sequences up to a depth on the real object, lock-step with a reference model"),
     "C10": dict(level="model_checking", design="4/C10",
-                text="For every history up to depth 3 (quick) / 4 (thorough) and every final (batch,context) of an 11-element set the frames of the used real Encoder are compared byte for byte (modulo a constant counter offset) with those of a fresh Encoder with the same ids; runs under ASan/UBSan in a fork sandbox so crashes caused by leftover state are outcomes.",
+                text="For every history up to depth 4 (quick) / 6 (thorough) and every final (batch,context,version) of a 13-element set the frames of the used real Encoder are compared byte for byte (modulo a constant counter offset) with those of a fresh Encoder with the same ids; runs under ASan/UBSan in a fork sandbox so crashes caused by leftover state are outcomes.",
                 note="Purely differential: no model involved.",
                 technique="explicit-state exploration of all operation sequences up to a depth, differential oracle (used vs fresh object)"),
     "C05": dict(level="model_checking", design="4/C05",
                 text="All interleavings of the frame streams of 2 and 3 endpoints (7 templates x 8 variants incl. counter wrap, zero-size segments, trailing bytes, typed payloads) explored as a DFS that copies the real Decoder at each branch; every prefix is judged against the stream's own expectation and in lock-step with the reassembly model.",
-                note="Bounds: <= 8 frames in total (quick) / <= 10 (thorough) for three endpoints; all template and variant pairs for two endpoints.",
+                note="Bounds: <= 9 frames in total (quick) / <= 12 (thorough) for three endpoints; all template and variant pairs for two endpoints; two variants reassemble to the largest messages (65535 / 65519-65520 bytes).",
                 technique="exhaustive enumeration of all interleavings (schedules of frame arrival) on copies of the real decoder, lock-step with a reference model"),
     "C06": dict(level="fault_enumeration", design="4/C06",
-                text="All sequences of <= 2 (quick) / <= 3 (thorough) faults from {drop, duplicate, duplicate-later, swap, corrupt-version, corrupt-type} at every position of 4 base histories (real encoder output, two interleaved endpoints, a stream crossing the counter wrap); every delivered packet must be byte-identical to a sent one, every complete uninterrupted message must be delivered, and the run must agree with the reassembly model.",
+                text="All sequences of <= 2 (quick) / <= 3 (thorough; 4 on the wrap-crossing history) faults from {drop, duplicate, duplicate-later, swap, corrupt-version, corrupt-type} at every position of 4 base histories (real encoder output, two interleaved endpoints, a stream crossing the counter wrap); every delivered packet must be byte-identical to a sent one, every complete uninterrupted message must be delivered, and the run must agree with the reassembly model.",
                 note="'Random beyond the bound' of the quantifier text is deliberately not done (sampling is a different family); the completed bound is reported.",
                 technique="exhaustive fault-sequence enumeration up to a bound on the real decoder"),
     "C17": dict(level="model_checking", design="4/C17",
-                text="57-symbol state-relative frame alphabet over 3 endpoints: unmerged tree of copied real Decoders (depth 3 quick / 4 thorough) and BFS (depth 8 / 12) merged on (model state, dump of the decoder's pending table); after every transition the set of endpoints with pending data must equal the set of open messages and buffered bytes must not exceed header + declared segment bytes received.",
+                text="57-symbol state-relative frame alphabet over 3 endpoints: unmerged tree of copied real Decoders (depth 3 quick / 4 thorough) and BFS (depth 9 / 11) merged on (model state, dump of the decoder's pending table); after every transition the set of endpoints with pending data must equal the set of open messages and buffered bytes must not exceed header + declared segment bytes received.",
                 note="Uses the guarded read-only hook Decoder::verifPending(); a header-only frame is modelled as carrying nothing.",
                 technique="explicit-state model checking (tree + BFS with state merging) of the real decoder against a reference model; invariant checked in every state"),
     "C18": dict(level="model_checking", design="4/C18",
@@ -97,7 +97,7 @@ CHECKS = {
                 note="Equality must agree with field-by-field comparison only for non-empty payloads (as the property states).",
                 technique="exhaustive enumeration of object pairs x value operations (2-step histories) on the real classes"),
     "C16": dict(level="model_checking", design="4/C16",
-                text="31-operation alphabet over 3 devices x 2 interfaces x 2 message variants: unmerged tree of copied real Status objects to depth 4 (quick) / 5 (thorough), every prefix judged, plus BFS merged on the full ordered observable state to depth 9 / 12; after every operation counts, lookups by id and every getter/byte of every stored packet are compared with a latest-message map.",
+                text="31-operation alphabet over 3 devices x 2 interfaces x 2 message variants: unmerged tree of copied real Status objects to depth 4 (quick) / 5 (thorough), every prefix judged, plus BFS merged on the full ordered observable state run to its fixpoint (all 109 591 reachable states of the alphabet); after every operation counts, lookups by id and every getter/byte of every stored packet are compared with a latest-message map.",
                 note="Vector order is not constrained; 'random beyond the bound' is not done (the completed bound is reported).",
                 technique="explicit-state model checking (operation-sequence tree + BFS with state merging) of the real object against a reference model"),
     "C20": dict(level="model_checking", design="4/C20",
